@@ -114,9 +114,17 @@ static void mode_c07() {
     for (long c = M.from; c < M.from + M.count; c++) {
         Rng r(M.seed, c, 71);
         Setup s = gen_setup(r, true, M.thorough());
+        if ((c / 7) % 3 == 1) {
+            // one bunch, but not in the first bucket of the buffer (e.g. filling {1,0}): power and wake loss must not care
+            uint32_t bk = (uint32_t)r.range(1, 3);
+            s.buckets = {bk}; s.spacing = s.n + (uint32_t)r.range(0, s.n);
+            size_t need = (size_t)bk * s.spacing + s.n;
+            if (s.N < need) s.N = pick_length(r, need, M.thorough());
+        }
         int model = (int)(c % 5);
         if (model == 2 && s.N > 600) s.N = 256;   // Airy sums are slow
         if (s.N < s.n) s.N = 64;
+        if (s.N < (size_t)s.buckets[0] * s.spacing + s.n) { s.buckets = {0}; s.spacing = 0; }   // (offset bunch does not fit the shortened buffer)
         std::string mname;
         fill_passive(r, s, model, mname);
         bool zero_exempt = (c / 5) % 3 != 0;      // two thirds: Z0 = Z_top = 0 -> relation must be tight
@@ -129,6 +137,8 @@ static void mode_c07() {
         set_profiles(r, ps, s, rho, flavour);
         auto imp = std::make_shared<Impedance>(s.Z, (frequency_t)1e12);
         ElectricField ef(ps, imp, s.buckets, s.spacing, nullptr, s.frev, (meshaxis_t)s.revpart, s.Ib, s.E0, s.sE, s.dt);
+        bool wake_first = (c / 3) % 2 == 1;        // the same object is asked for the wake before / after the spectrum
+        if (wake_first) { ef.wakePotential(); M.ev("wake_requested_before_spectrum"); }
         ef.updateCSR(0);
         double P = ef.getCSRPower()[0];
         std::vector<double> S(ef.getCSRSpectrum(), ef.getCSRSpectrum() + s.N);
@@ -138,7 +148,8 @@ static void mode_c07() {
         double rhoW = 0, rhoWabs = 0;
         { double wmx = 0, rs = 0; for (uint32_t x = 0; x < s.n; x++) { rhoW += rho[x] * ((double)w[x] / ws); wmx = std::max(wmx, std::fabs((double)w[x] / ws)); rs += std::fabs(rho[x]); }
           rhoWabs = wmx * rs; }   // FFT error is relative to max|W|, not to the local value
-        auto F = dft_train(s, rho, s.N / 2);
+        Setup s0 = s; s0.buckets = {0}; s0.spacing = 0;      // |F|^2 does not depend on where the bunch sits
+        auto F = dft_train(s0, rho, s.N / 2);
         double ex0 = 0.5 * std::fabs((double)s.Z[0].real()) * std::norm(F[0]);
         double extop = std::fabs((double)s.Z[s.N / 2].real()) * std::norm(F[s.N / 2]);
         double refsum = 0;
@@ -180,9 +191,66 @@ static void mode_c07() {
     }
 }
 
+// per-bunch CSR spectrum and power of a train (radiation field as main() builds it: no spacing, CSR-only constructor)
+static void mode_c07mb() {
+    for (long c = M.from; c < M.from + M.count; c++) {
+        Rng r(M.seed, c, 72);
+        Setup s = gen_setup(r, false, M.thorough());
+        if (s.nb < 2) s.nb = 2 + (uint32_t)r.range(0, 2);
+        s.buckets.clear(); for (uint32_t b = 0; b < s.nb; b++) s.buckets.push_back(s.nb - 1 - b);
+        s.spacing = 0;
+        s.N = pick_length(r, s.n, M.thorough());
+        int model = (int)(c % 5); if (model == 2 && s.N > 600) s.N = 256;
+        std::string mname; fill_passive(r, s, model, mname);
+        double cutoff = (c / 5) % 2 ? r.logu(1e9, 1e12) : 0;
+        M.begin_case(c, "c07mb " + mname + " " + s.descr());
+        auto ps = make_grid(s);
+        std::vector<double> rho; int flavour = (int)r.range(0, 2);
+        set_profiles(r, ps, s, rho, flavour);
+        auto imp = std::make_shared<Impedance>(s.Z, (frequency_t)1e12);
+        ElectricField ef(ps, imp, s.buckets, 0, nullptr, s.frev, (meshaxis_t)s.revpart);
+        ef.updateCSR((frequency_t)cutoff);
+        double df = ef.getFreqRuler()->delta(), dq2 = (double)ps->getDelta(0) * (double)ps->getDelta(0), hz = ef.getFreqRuler()->scale("Hertz");
+        for (uint32_t b = 0; b < s.nb; b++) {
+            Setup s1 = s; s1.nb = 1; s1.buckets = {0};
+            std::vector<double> rb(rho.begin() + (size_t)b * s.n, rho.begin() + (size_t)(b + 1) * s.n);
+            auto F = dft_train(s1, rb, s.N / 2);
+            const csrpower_t* S = ef.getCSRSpectrum() + (size_t)b * s.N;
+            double ref = 0, smax = 0, worst = 0; size_t wk = 0;
+            std::vector<double> want(s.N, 0.0);
+            for (size_t k = 0; k <= s.N / 2; k++) {
+                double cut = 1; if (cutoff > 0) { double x = hz * (double)(*ef.getFreqRuler())[k] / (double)(float)cutoff; cut = 1 - std::exp(-x * x); }
+                want[k] = dq2 * cut * (double)s.Z[k].real() * std::norm(F[k]); ref += want[k]; smax = std::max(smax, want[k]);
+            }
+            // single-precision FFT: every form-factor sample carries an absolute error of a few 1e-7 of the largest one
+            double Fmax = 0; for (size_t k = 0; k <= s.N / 2; k++) Fmax = std::max(Fmax, std::abs(F[k]));
+            double epsF = 6e-7 * Fmax * std::log2((double)s.N), tolsum = 0;
+            for (size_t k = 0; k < s.N; k++) {
+                double cutk = (k <= s.N / 2 && std::norm(F[k]) > 0) ? want[k] / std::norm(F[k]) : (k <= s.N / 2 ? dq2 * (double)s.Z[k].real() : 0.0);   // dq2*cut*ReZ
+                double tolk = cutk * (2 * epsF * (k <= s.N / 2 ? std::abs(F[k]) : 0.0) + epsF * epsF) + 4e-6 * want[k] + 1e-36;   // (+ single-precision underflow floor)
+                tolsum += tolk;
+                double e = std::fabs((double)S[k] - want[k]) / tolk; if (e > worst) { worst = e; wk = k; }
+            }
+            double P = ef.getCSRPower()[b];
+            M.ev("bunch_spectra_checked");
+            bool ok1 = M.within("mb.spectrum_err_over_tol", worst, 1.0);
+            bool ok2 = M.within("mb.power_vs_reference", std::fabs(P - df * ref) / ((2e-5 + s.N * 5.96e-8) * std::fabs(df * ref) + df * tolsum + 1e-300), 1.0);
+            bool neg = false; for (size_t k = 0; k < s.N; k++) if (S[k] < 0) neg = true;
+            if (!ok1 || !ok2 || neg || P < 0) {
+                vh::J d; d.s("model", mname).s("setup", s.descr()).i("bunch", b).n("power", P).n("df_sum_reference_spectrum", df * ref).n("worst_spectrum_err", worst).i("at", (long)wk).n("cutoff", cutoff).i("negative", neg).n("got_at", S[wk]).n("want_at", want[wk]).n("smax", smax).n("reZ_at", s.Z[wk].real()).n("F2_at", wk <= s.N / 2 ? std::norm(F[wk]) : 0.0);
+                M.violation(std::string("C07:train:") + (ok1 ? (ok2 ? "sign" : "power") : "spectrum") + (b > 0 ? ":bunch>0" : ":bunch0"),
+                            "per-bunch CSR spectrum/power of a train is not dq^2*Re Z*|form factor|^2 (resp. its sum times delta_f)", d.str());
+            }
+        }
+        M.sig(vh::hmix(vh::hmix(s.N, s.n * 8 + s.nb), vh::hdata(rho.data(), 8 * std::min<size_t>(rho.size(), 64))));
+        { vh::J j; j.s("class", "c07mb").s("model", mname).s("setup", s.descr()); M.sample(j.str()); }
+    }
+}
+
 int main(int argc, char** argv) {
     M.parse(argc, argv);
     std::string mode = M.opt("--mode", "c06");
+    if (mode == "c07mb") { mode_c07mb(); M.finish(); return 0; }
     if (mode == "warm") {
         // create FFT wisdom for the lengths [from, from+count) of the table (one process per length)
         auto v = all_lengths(M.thorough());
